@@ -4,7 +4,8 @@
 From Coq Require Import ZArith Reals Lra Lia List Bool String.
 From Coquelicot Require Import Coquelicot.
 From FF Require Import Base.Ops Inst.RInst Base.RAlg Model.Numeric Model.Gradient Model.GradConsts
-     Model.Tie.C11 Proofs.Foi Proofs.MatAlg Proofs.Gradient.
+     Model.Tie.C11 Proofs.Foi Proofs.MatAlg Proofs.Gradient Proofs.GradientScaling Inst.EnclosureC11
+     Model.Consts Corr.Agree Corr.Obs Corr.ObsC11.   (* the last four: everything the case files of the correspondence check import *)
 Import ListNotations.
 Local Open Scope R_scope.
 
@@ -115,3 +116,132 @@ Theorem C11_spectrum_shape_refuted : exists shape n_selected n_all n_omega,
   infidelity_accepts shape n_selected n_all n_omega = true /\
   infidelity_derivative_accepts shape n_selected n_all n_omega = false.
 Proof. exact spectrum_shape_refuted. Qed.
+
+(* --- _liouville_derivative: derivative of the Liouville representation of the propagators --- *)
+(* product rule on Re tr(Q^dagger C_j Q C_k) + Hermitian symmetrisation ("2 Re") *)
+Theorem C11_fliou_derive : forall d (Qf : R -> fmat) (dQ : fmat) u (Cj Ck : fmat),
+  fherm d Cj -> fherm d Ck ->
+  (forall i j, (i < d)%nat -> (j < d)%nat -> cderive (fun v => Qf v i j) u (dQ i j)) ->
+  is_derive (fun v => fliou d (Qf v) Cj Ck) u
+            (2 * fst (ftr d (fmul d (fadj dQ) (fmul d Cj (fmul d (Qf u) Ck))))).
+Proof. exact fliou_derive. Qed.
+
+(* PARTIAL: Duhamel's formula for the derivative of the segment propagator exp(-i(H + u C_h)dt) is the
+   hypothesis [Duhamel] (premise 1 below: the derivative of P_s(u) at u0 is the model's U_deriv);
+   given it, the model's liouville_deriv entry is the derivative of Q^(t+1)_jk with respect to u_h(t_s). *)
+Theorem C11_liouville_deriv_Duhamel : forall d (Qs Qs1 Qt1 V : Mat) (ev : list R) (dt : R) (Cbar : Mat)
+    (Pu : R -> fmat) (u0 : R),
+  (forall i j, (i < d)%nat -> (j < d)%nat ->
+     cderive (fun u => Pu u i j) u0 (toF (u_deriv RO d Qs Qs1 V ev dt Cbar) i j)) ->      (* Duhamel *)
+  feq d (fmul d (Pu u0) (toF Qs)) (toF Qs1) ->
+  funitary d (toF Qs1) ->
+  forall Cj Ck : Mat, fherm d (toF Cj) -> fherm d (toF Ck) ->
+  is_derive (fun u => fliou d (Qt1_of d Qs Qs1 Qt1 Pu u) (toF Cj) (toF Ck)) u0
+    (ld_entry RO d (mmul RO d Qt1 (u_deriv_transformed RO d Qs Qs1 (u_deriv RO d Qs Qs1 V ev dt Cbar)))
+                   (mmul RO d (mmul RO d Cj Qt1) Ck)).
+Proof. exact liouville_deriv_Duhamel. Qed.
+Print Assumptions C11_liouville_deriv_Duhamel.
+
+(* the hypotheses are satisfiable: one-level system H = 1 + u, dt = 1, P(u) = e^{-i(1+u)} *)
+Definition Pu1 (u : R) : fmat := fun _ _ => cexp' (- (1 + u)).
+Example C11_Duhamel_sat :
+  (forall i j, (i < 1)%nat -> (j < 1)%nat ->
+     cderive (fun u => Pu1 u i j) 0 (toF (u_deriv RO 1 [[1c]] [[cexp' (-1)]] [[1c]] [1] 1 [[1c]]) i j)) /\
+  feq 1 (fmul 1 (Pu1 0) (toF [[1c]])) (toF [[cexp' (-1)]]) /\
+  funitary 1 (toF [[cexp' (-1)]]) /\ fherm 1 (toF [[1c]]).
+Proof.
+  split; [|split; [|split]].
+  - intros i j Hi Hj. assert (i = 0)%nat by lia. assert (j = 0)%nat by lia. subst.
+    unfold Pu1. split; simpl.
+    + auto_derive; auto. unfold toF, mget; simpl. replace (- (1 + 0)) with (-1) by ring. ring.
+    + auto_derive; auto. unfold toF, mget; simpl. replace (- (1 + 0)) with (-1) by ring. ring.
+  - intros i j Hi Hj. assert (i = 0)%nat by lia. assert (j = 0)%nat by lia. subst.
+    unfold fmul, Pu1, toF, mget; simpl. replace (- (1 + 0)) with (-1) by ring. apply c_eq; simpl; ring.
+  - split; intros i j Hi Hj; assert (i = 0)%nat by lia; assert (j = 0)%nat by lia; subst;
+      unfold fmul, fadj, fid, toF, mget; simpl; apply c_eq; simpl;
+      generalize (sin2_cos2 (-1)); unfold Rsqr; intros; try lra; try ring.
+  - intros i j Hi Hj. assert (i = 0)%nat by lia. assert (j = 0)%nat by lia. subst.
+    unfold fadj, toF, mget; simpl. apply c_eq; simpl; ring.
+Qed.
+
+(* --- identifier selection returns the slice of the full derivative (any instance of Ops) --- *)
+Theorem C11_slice_commutes : forall d thr th3 evs Vs Qs omega basis nopers copers ncoeffs dts ts use_ncd ncd n_idx c_idx,
+  List.Forall (fun i => (i < List.length nopers)%nat) n_idx -> List.Forall (fun i => (i < List.length copers)%nat) c_idx ->
+  ctrlmat_deriv RO d thr th3 evs Vs Qs omega basis (select [] n_idx nopers) (select [] c_idx copers)
+                (select [] n_idx ncoeffs) dts ts use_ncd (select [] n_idx (map (select [] c_idx) ncd))
+  = select [] n_idx (map (select [] c_idx)
+      (ctrlmat_deriv RO d thr th3 evs Vs Qs omega basis nopers copers ncoeffs dts ts use_ncd ncd)).
+Proof. exact (slice_commutes RO). Qed.
+Print Assumptions C11_slice_commutes.
+
+(* --- enclosure (paramcoq): the interval evaluation of the correspondence check encloses the real-valued model --- *)
+Definition C11_all_enclosure := EnclC11.all_enclosure.
+Definition C11_di_enclosure := EnclC11.di_enclosure.
+
+(* --- the general branch of _control_matrix_at_timestep_derivative is the Duhamel commutator integral --- *)
+(* M_gen[r,c] = int_0^dt e^{i w t} [Phi_h(t), N_a(t)]_rc dt  with Phi_h(t) = int_0^t e^{iHs} C_h e^{-iHs} ds and
+   N_a(t) = e^{iHt} B_a e^{-iHt} in the eigenbasis (no Taylor-branch approximation: masked => exactly zero) *)
+Theorem C11_Mgen_commutator_integral : forall d w ev (Cb NT : Mat) thr_dE thr_x thr_y dt,
+  0 < thr_dE /\ 0 < thr_x /\ 0 < thr_y ->
+  (forall p q m n, (p < d)%nat -> (q < d)%nat -> (m < d)%nat -> (n < d)%nat ->
+    (Rabs (di_b ev p q) < thr_dE -> di_b ev p q = 0) /\
+    (Rabs (di_x w ev m n) < thr_x -> di_x w ev m n = 0) /\
+    (Rabs (di_x w ev m n + di_b ev p q) < thr_y -> di_x w ev m n + di_b ev p q = 0)) ->
+  forall r c, (r < d)%nat -> (c < d)%nat ->
+  cRInt (comm_integrand d w ev Cb NT r c) 0 dt
+        (Mgen_entry RO d (deriv_integral_entry RO (thr_dE, thr_x, thr_y) w ev dt) Cb NT r c).
+Proof. exact Mgen_commutator_integral. Qed.
+Print Assumptions C11_Mgen_commutator_integral.
+
+Theorem C11_step_deriv_commutator_integral : forall d w ev (Cb NT : Mat) thr_dE thr_x thr_y dt,
+  0 < thr_dE /\ 0 < thr_x /\ 0 < thr_y ->
+  (forall p q m n, (p < d)%nat -> (q < d)%nat -> (m < d)%nat -> (n < d)%nat ->
+    (Rabs (di_b ev p q) < thr_dE -> di_b ev p q = 0) /\
+    (Rabs (di_x w ev m n) < thr_x -> di_x w ev m n = 0) /\
+    (Rabs (di_x w ev m n + di_b ev p q) < thr_y -> di_x w ev m n + di_b ev p q = 0)) ->
+  forall (phase : Cx) (BTj : Mat),
+  cRInt (fun t => cmul' phase (csumn' d (fun n => csumn' d (fun k =>
+                    cmul' (cmul' ic (mget RO BTj n k)) (comm_integrand d w ev Cb NT k n t))))) 0 dt
+        (step_deriv_entry RO d phase BTj
+           (mbuild d d (Mgen_entry RO d (deriv_integral_entry RO (thr_dE, thr_x, thr_y) w ev dt) Cb NT))).
+Proof. exact step_deriv_commutator_integral. Qed.
+
+(* hypotheses satisfiable: two-level segment with eigenvalues 0, 1 at frequency 3, extracted thresholds *)
+Example C11_mask_exact_sat :
+  let thr := Rdya (fst di_thr_dE) (snd di_thr_dE) in
+  forall p q m n, (p < 2)%nat -> (q < 2)%nat -> (m < 2)%nat -> (n < 2)%nat ->
+    (Rabs (di_b [0; 1] p q) < thr -> di_b [0; 1] p q = 0) /\
+    (Rabs (di_x 3 [0; 1] m n) < thr -> di_x 3 [0; 1] m n = 0) /\
+    (Rabs (di_x 3 [0; 1] m n + di_b [0; 1] p q) < thr -> di_x 3 [0; 1] m n + di_b [0; 1] p q = 0).
+Proof.
+  assert (P : 0 < Rdya (fst di_thr_dE) (snd di_thr_dE) < 1).
+  { apply (Rdya_small 944473296573929 73); reflexivity. }
+  cbv zeta. set (thr := Rdya (fst di_thr_dE) (snd di_thr_dE)) in *.
+  intros p q m n Hp Hq Hm Hn.
+  destruct p as [|[|p]]; [| |lia]; (destruct q as [|[|q]]; [| |lia]); (destruct m as [|[|m]]; [| |lia]);
+    (destruct n as [|[|n]]; [| |lia]); unfold di_b, di_x, vg, vget; simpl;
+    repeat split; intros H; try ring; exfalso; apply Rabs_def2 in H; lra.
+Qed.
+
+(* --- the sensitivity-derivative term (n_coeffs_deriv / n_coeffs) * ctrlmat_step --- *)
+Theorem C11_sens_term_correct : forall (ncd s : R) (b : Cx), s <> 0 ->
+  sens_term RO ncd s (cscal RO s b) = cscal RO ncd b.
+Proof. exact sens_term_correct. Qed.
+Theorem C11_sens_product_rule : forall (s : R -> R) (b : R -> Cx) u ds db, s u <> 0 ->
+  is_derive s u ds -> cderive b u db ->
+  cderive (fun v => cscal RO (s v) (b v)) u
+          (cadd' (cscal RO (s u) db) (sens_term RO ds (s u) (cscal RO (s u) (b u)))).
+Proof. exact sens_product_rule. Qed.
+(* FINDING (c11-zero-sensitivity-nan): for a zero sensitivity the term is not s' * b (0/0 in floating point) *)
+Theorem C11_sens_term_refuted : exists (ncd : R) (b : Cx), sens_term RO ncd 0 (cscal RO 0 b) <> cscal RO ncd b.
+Proof. exact sens_term_refuted. Qed.
+
+(* --- change of the time unit --- *)
+(* FINDING (c11-absolute-threshold): the true parameter integral is homogeneous of degree 2 under
+   (x, b, dt) -> (x/lam, b/lam, lam dt); the model with the extracted absolute masks is not (lam = 2^27) *)
+Theorem C11_time_scaling_refuted :
+  let thr := Rdya 944473296573929 (-73) in
+  exists lam w dt : R, 0 < lam /\
+    deriv_integral_entry RO (thr, thr, thr) (w / lam) [0] (dt * lam) 0 0 0 0
+    <> cscal RO (lam * lam) (deriv_integral_entry RO (thr, thr, thr) w [0] dt 0 0 0 0).
+Proof. exact time_scaling_refuted. Qed.
